@@ -22,7 +22,7 @@ LEVEL_TEXT = ('Every observed call of a transition function is checked cell by c
 LEVEL_NOTE = ('Trusted: refmodel.ref_actuate_door/ref_actuate_box and the per-cell legality rule in dynmon.analyse. '
               'Larger layouts (7x7, 9x9) and random chains are sampled.')
 SHARDS = {'quick': 4, 'thorough': 16}
-BUDGET_S = {'quick': 60, 'thorough': 900}
+BUDGET_S = {'quick': 300, 'thorough': 2400}
 RULE = ('case = one observed call of a transition function or one transition of the key-door state graph. non-trivial = a '
         'door or box in the cell in front or adjacent, or a held key; distinct by (function, deep pre-state encoding, action) '
         'resp. (state encoding, action).')
